@@ -150,7 +150,16 @@ def check_case(case, rec=None):
                 sr = f["src_region"]
                 dr = csdec.SHRAM_REGION if f["dst_region"] & 0x100 else f["dst_region"]
                 sidx = np.arange(f["src"], f["src"] + f["length"])
-                need_defined(sr, sidx, "dma-source")
+                # a copy does not consume what it moves (storage rounding makes copies longer than the tensor): undefined source bytes stay undefined at
+                # the destination and are reported if an operation ever reads them there
+                undefined_src = None
+                if sr == 0:
+                    need_defined(sr, sidx, "dma-source")
+                else:
+                    if sr not in T.writer or (sidx.size and sidx.max() >= len(T.writer[sr])):
+                        raise Violation("C03/outside-region", "%s copies from bytes up to %d of region %s" % (where(), int(sidx.max()), sr), case, tags_c)
+                    undefined_src = T.writer[sr][sidx] == NONE
+                    stats["reads"] += int(sidx.size)
                 if dr not in T.writer:
                     raise Violation("C03/unknown-region", "%s writes region %s" % (where(), dr), case, tags_c)
                 if f["dst"] + f["length"] > len(T.writer[dr]):
@@ -164,6 +173,10 @@ def check_case(case, rec=None):
                 T.writer[dr][sl] = me
                 T.ident[dr][sl] = T.id_of(lab.get("out_eq"))
                 T.row[dr][sl] = -1
+                if undefined_src is not None and undefined_src.any():
+                    T.writer[dr][f["dst"] + np.nonzero(undefined_src)[0]] = NONE
+                    if rec is not None:
+                        rec.cls("dma-moves-undefined-padding")
                 infos[me] = infos[me] + (lab.get("out_tensor"), lab.get("box"), lab.get("out_eq"))
                 if dr == csdec.SHRAM_REGION:
                     feats.add("lut")
